@@ -7,7 +7,7 @@
 From Coq Require Import ZArith List Bool Lia.
 From Tickit Require Import RectDefs RBDefs RBSpec RBLemmas RBSpanProofs RBAbsLemmas RBInv RBOpProofs RBProofs RBProps
                            RBTheorems Gen_Linechars RBGlyphs RBFlushDefs RBFlushSpec RBFlushProofs RBWidth RBFlushCols
-                           RBFlushReach RBTermSim.
+                           RBFlushReach RBTermSim RBPenLemmas.
 Import ListNotations.
 Local Open Scope Z_scope.
 
@@ -51,10 +51,7 @@ Qed.
 
 Lemma pen_equiv_canon : forall a b, pen_equiv a b = true -> canon_pen a = canon_pen b.
 Proof.
-  intros a b H. unfold pen_equiv, attr_equiv in H.
-  apply andb_true_iff in H. destruct H as (H & H4). apply andb_true_iff in H. destruct H as (H & H3).
-  apply andb_true_iff in H. destruct H as (H1 & H2).
-  apply Z.eqb_eq in H1, H2, H3, H4. unfold canon_pen. congruence.
+  intros a b H. unfold canon_pen, pen_build. pose proof (pen_equiv_reads a b H) as R. now rewrite !R.
 Qed.
 
 (* ---------------------------------------------------------------------------------- *)
